@@ -4,6 +4,7 @@ package props
 
 import (
 	"fmt"
+	"reflect"
 
 	stackage "github.com/JesseCoretta/go-stackage"
 	"pgregory.net/rapid"
@@ -80,6 +81,19 @@ func sameValue(a, b any) bool {
 	}
 	if _, ok := a.([]string); ok {
 		return identOf(a) == identOf(b)
+	}
+	if ta, tb := reflect.TypeOf(a), reflect.TypeOf(b); ta != tb {
+		return false
+	} else if !ta.Comparable() {
+		// slices, maps: same backing store / same map
+		switch ta.Kind() {
+		case reflect.Slice:
+			va, vb := reflect.ValueOf(a), reflect.ValueOf(b)
+			return va.Len() == vb.Len() && va.Pointer() == vb.Pointer()
+		case reflect.Map:
+			return reflect.ValueOf(a).Pointer() == reflect.ValueOf(b).Pointer()
+		}
+		return reflect.DeepEqual(a, b)
 	}
 	return a == b
 }
